@@ -22,21 +22,24 @@ from engine.report import guard
 
 T = tlc.tla
 
-OBJS = {  # model id -> (base, padded size, value class, factory)
+OBJS = {  # model id -> (base, padded size, value class)
     "u1": ("user_name", 12, "a"), "u2": ("user_name", 12, "a"), "u3": ("user_name", 16, "u3"),
-    "c1": ("class", 20, "c1"), "x1": ("unknown", 24, "x1"),
+    # an attribute name with a digit, data aligned on 4 bytes (no padding)
+    "f1": ("framed_ipv6_prefix", 16, "f1"), "x1": ("unknown", 24, "x1"),
     # only used by the random traces
-    "u4": ("user_name", 16, "u4"), "c2": ("class", 12, "c2"), "h1": ("origin_host", 16, "h1"),
+    "u4": ("user_name", 12, "u4"), "c2": ("class", 12, "c2"), "h1": ("origin_host", 16, "h1"),
 }
-VALUES = {"u1": "a", "u2": "a", "u3": "bbbbbb", "u4": "ccccc", "c1": b"123456789", "c2": b"zz", "h1": "h.examp"}
+VALUES = {"u1": "a", "u2": "a", "u3": "bbbbbb", "u4": "cccc", "f1": b"12345678", "c2": b"zz", "h1": "h.examp"}
 FRESH = [("renamed", 0), ("renamed", 1)]
 
 
 def make_obj(oid):
     from bromelia.base import DiameterAVP
-    from bromelia.avps import UserNameAVP, ClassAVP, OriginHostAVP
+    from bromelia.avps import UserNameAVP, ClassAVP, OriginHostAVP, FramedIpv6PrefixAVP
     if oid.startswith("u"):
         return UserNameAVP(VALUES[oid])
+    if oid.startswith("f"):
+        return FramedIpv6PrefixAVP(VALUES[oid])
     if oid.startswith("c"):
         return ClassAVP(VALUES[oid])
     if oid.startswith("h"):
@@ -137,7 +140,7 @@ class MsgAdapter:
         p = {"lst": tuple(ids.get(id(a), "?") for a in lst),
              "names": {parse_key(k): ids.get(id(v), "?") for k, v in named.items()},
              "hdr": self.length_field(h), "size": self.real_size(h)}
-        keys = set(named) | {keystr(n) for n in (("user_name", 0), ("user_name", 1), ("class", 0), ("unknown", 0), FRESH[0])}
+        keys = set(named) | {keystr(n) for n in (("user_name", 0), ("user_name", 1), ("class", 0), ("framed_ipv6_prefix", 0), ("unknown", 0), FRESH[0])}
         p["has"] = {k: bool(h.m.has_avp(k)) for k in sorted(keys)}
         p["hasok"] = all(p["has"][k] == (k in named) for k in keys)
         # identity-level facts the property states
@@ -407,7 +410,7 @@ def run(rep):
                 "9 operations; G: every (implementation-reached state, action) group replayed on a real DiameterMessage (3 flavours) "
                 "and a real Grouped AVP; T: random 40-step sequences over 8 objects validated step by step by TLC. "
                 "distinct = (state, action) groups + trace steps")
-    mod, cfg = mc_module({k: v for k, v in OBJS.items() if k in ("u1", "u2", "u3", "c1", "x1")}, maxlen, 3)
+    mod, cfg = mc_module({k: v for k, v in OBJS.items() if k in ("u1", "u2", "u3", "f1", "x1")}, maxlen, 3)
     wd = tlc.workdir("MC_Message")
     try:
         dot = os.path.join(wd, "graph.dot")
@@ -417,7 +420,7 @@ def run(rep):
         rep.tlc("MC_Message", res)
         # non-vacuity: every historic deviation must break Coherent
         for dev in ("D_PopByEquality", "D_SuffixByCount", "D_SetItemStale", "D_UpdateTwoObjects"):
-            m2, c2 = mc_module({k: v for k, v in OBJS.items() if k in ("u1", "u2", "u3", "c1", "x1")}, 3, 3, dev='{"%s"}' % dev)
+            m2, c2 = mc_module({k: v for k, v in OBJS.items() if k in ("u1", "u2", "u3", "f1", "x1")}, 3, 3, dev='{"%s"}' % dev)
             r2, _ = tlc.run("MC_Message", c2, extra_modules={"MC_Message": m2}, workers=4, timeout=600)
             if r2.violated != "Coherent":
                 raise tlc.TlcError(f"vacuity self-test: deviation {dev} does not violate Coherent (got {r2.violated})")
